@@ -237,7 +237,12 @@ def all_ops(nlabels, self_loops):
     ops = []
     for a in range(nlabels):
         for b in range(nlabels):
-            if a != b or self_loops:
+            if self_loops == "one-orientation":
+                if a != b:
+                    ops.append(("ow", a, b))
+                    if a < b:
+                        ops.append(("tw", a, b))
+            elif a != b or self_loops:
                 ops.append(("tw", a, b))
                 ops.append(("ow", a, b))
     ops += [("ver", a) for a in range(nlabels)]
@@ -299,26 +304,29 @@ def run(tier, seed):
         for L in (1, 2, 3):
             tasks.append(("exh", 4, False, L, 0, 1))
             tasks.append(("exh", 3, True, L, 0, 1))
-        tasks += [("rnd", 5, 10, 2500, seed * 1000 + i) for i in range(32)]
+        tasks += [("rnd", 5, 10, 1500, seed * 1000 + i) for i in range(32)]
         bound = ("EXHAUSTIVE: every history of <=5 operations over 3 labels and of <=4 operations over 4 labels from "
                  "{add_two_way_edge(a,b), add_one_way_edge(a,b) for ordered a!=b, set_verified(a), connect_cycles()}; every "
-                 "history of <=4 operations over 3 labels including the self-loop edges (a,a); SEEDED: 80000 histories of "
+                 "history of <=4 operations over 3 labels including the self-loop edges (a,a); SEEDED: 48000 histories of "
                  "3..10 operations over 5 labels (self loops included, cycle detections and one-way edges favoured). Full "
                  "query block (all pairs) after every connect_cycles() and after a final one")
     else:
         tasks += [("exh", 3, False, 6, s, 256) for s in range(256)]
-        tasks += [("exh", 4, False, 5, s, 841) for s in range(841)]
-        tasks += [("exh", 3, True, 5, s, 64) for s in range(64)]
-        for L in (1, 2, 3, 4, 5):
+        tasks += [("exh", 4, "one-orientation", 5, s, 529) for s in range(529)]
+        tasks += [("exh", 4, False, 4, s, 64) for s in range(64)]
+        tasks += [("exh", 3, True, 4, s, 16) for s in range(16)]
+        tasks += [("exh", 3, False, 5, s, 64) for s in range(64)]
+        tasks += [("exh", 3, False, 4, s, 8) for s in range(8)]
+        for L in (1, 2, 3):
             tasks.append(("exh", 3, False, L, 0, 1))
-        for L in (1, 2, 3, 4):
             tasks.append(("exh", 4, False, L, 0, 1))
             tasks.append(("exh", 3, True, L, 0, 1))
         tasks += [("rnd", 5, 10, 5000, seed * 1000 + i) for i in range(64)]
         tasks += [("rnd", 6, 14, 1500, seed * 1000 + 500 + i) for i in range(64)]
-        bound = ("EXHAUSTIVE: every history of <=6 operations over 3 labels and of <=5 operations over 4 labels from "
+        bound = ("EXHAUSTIVE: every history of <=6 operations over 3 labels and of <=4 operations over 4 labels from "
                  "{add_two_way_edge(a,b), add_one_way_edge(a,b) for ordered a!=b, set_verified(a), connect_cycles()}; every "
-                 "history of <=5 operations over 3 labels including the self-loop edges (a,a); SEEDED: 320000 histories of "
+                 "history of exactly 5 operations over 4 labels with two-way edges given in one orientation (a<b) only; every "
+                 "history of <=4 operations over 3 labels including the self-loop edges (a,a); SEEDED: 320000 histories of "
                  "3..10 operations over 5 labels and 96000 of 3..14 operations over 6 labels. Full query block (all pairs) "
                  "after every connect_cycles() and after a final one")
     ctx = multiprocessing.get_context("fork")
